@@ -53,7 +53,7 @@ def check_doc(acc, job, with_key=True):
 
 def _repetitive_job(seed):
     acc = Acc()
-    for m in D.repetitive_models(seed) + [D.many_distinct_model(seed), D.giant_model(seed), D.distinct_single_model(seed)] + [D.materialise(j) for j in D.aligned_jobs(seed)]:
+    for m in D.repetitive_models(seed) + [D.many_distinct_model(seed), D.giant_model(seed), D.distinct_single_model(seed), D.many_signatures_model(seed)] + [D.materialise(j) for j in D.aligned_jobs(seed)]:
         text = m.text()
         case = {'text': text, 'headers': m.headers, 'seq': ['repetitive'], 'seed': seed}
         acc.count('evaluations')
